@@ -97,6 +97,15 @@ def pair_programs(rng, tier):
                 o3, _ = gen.gen_op(rng, _)
                 p = ("un", o3, p)
         progs.append(p)
+    # a projection (onto no columns, onto one) right above each kind of operation, over a leaf with duplicate rows: only
+    # an unused calculation or another projection may be swallowed
+    k1, k2 = K(1), K(2)
+    ups = [("dedup",), ("sort", [(("ref", k1), False)]), ("proj", [k1]), ("calc", K(5), ("add", ("ref", k1), ("lit", 1))),
+           ("slice", 1, 4), ("sel", ("cmp", "ge", ("ref", k1), ("lit", 1)))]
+    for up in ups:
+        for keep in ([], [k1]):
+            progs.append(("un", ("proj", keep), ("un", up, leaf)))
+            progs.append(("un", ("proj", keep), ("un", up, ("un", ("dedup",), leaf))))
     return progs
 
 
